@@ -15,7 +15,7 @@
    consumer the translation carries along ([krel]). *)
 From Coq Require Import List ZArith NArith String Bool Lia.
 From SCC Require Import Base.Sexp Lang.SynUtil Lang.FunSyn Lang.FunTy Lang.CoreSyn.
-From SCC Require Import Sem.AxSem Sem.CoreSem Sem.FunSem Model.Fun2Core Proof.Fun2CoreProof.
+From SCC Require Import Sem.AxSem Sem.CoreSem Sem.FunSem Model.Fun2Core Proof.Fun2CoreProof Proof.Fun2CoreTfv.
 Import ListNotations.
 Open Scope string_scope.
 Open Scope list_scope.
@@ -354,16 +354,25 @@ Section Machines.
     intros n o Hr _. exists 0%nat. exact Hr.
   Qed.
 
+  (* a continuation without free variables is never captured *)
+  Lemma captures_closed : forall binders cont, tfv_term cont [] = [] -> captures binders cont = false.
+  Proof.
+    intros binders cont H. unfold captures. rewrite H. induction binders as [|b r IH]; [reflexivity|]. simpl. exact IH.
+  Qed.
+  Lemma guard_capture_closed : forall lg binders w ty cont, tfv_term cont [] = [] ->
+    guard_capture lg binders w ty cont = w cont.
+  Proof. intros lg binders w ty cont H. unfold guard_capture. rewrite (captures_closed binders cont H). destruct lg; reflexivity. Qed.
+
   Lemma islf_sim : forall t, islf t = true ->
     forall codata cur lg c xk sk tyk st sr st' ie kont out,
-    cont_is_small (CMu c xk sk tyk) = true ->
+    cont_is_small (CMu c xk sk tyk) = true -> tfv_term (CMu c xk sk tyk) [] = [] ->
     wc codata cur lg t (CMu c xk sk tyk) st = Ok (sr, st') ->
     krel kont xk sk ->
     forall n o, frun n p (FEval t (fenv_of ie) kont) out = o -> snd o <> OOutOfFuel ->
     exists m, crun m cp (Run sr (cenv_of ie)) out = o.
   Proof.
     induction t using fterm_ind';
-      intros Hi codata cur lg c xk sk tyk st sr st' ie kont out Hsmall Hw Hk; simpl in Hi; try discriminate.
+      intros Hi codata cur lg c xk sk tyk st sr st' ie kont out Hsmall Hclosed Hw Hk; simpl in Hi; try discriminate.
     - (* FVar *) eapply iexp_stmt_sim; eauto.
     - (* FLit *) eapply iexp_stmt_sim; eauto.
     - (* FOp *) eapply iexp_stmt_sim; eauto.
@@ -457,7 +466,8 @@ Section Machines.
     - (* FLet *)
       destruct vty as [|]; [|discriminate].
       apply andb_prop in Hi. destruct Hi as [Hib Hibody].
-      rewrite wc_unfold in Hw. unfold wc_let in Hw. simpl in Hw. unfold mbind at 1 in Hw.
+      rewrite wc_unfold in Hw. rewrite (guard_capture_closed _ _ _ _ _ Hclosed) in Hw.
+      unfold wc_let in Hw. simpl in Hw. unfold mbind at 1 in Hw.
       destruct (wc codata cur lg t2 (CMu c xk sk tyk) st) as [[body' st1]|?] eqn:E2; [|discriminate].
       destruct (fun_iexp _ Hib ie (FkLet v t2 (fenv_of ie) kont) out) as [kfa Hfa].
       destruct (wc_iexp _ Hib _ _ _ _ _ _ _ Hw) as [ce [Hc Hs]]. subst sr.
@@ -613,7 +623,10 @@ Proof.
   - pose proof (entry_envs (fdctx d) args) as He.
     destruct (fbind (fvars (fdctx d)) (map (fun z => FbP (FvInt z)) args) []) as [rf|].
     + destruct He as [ie [Hrf Hce]]. rewrite Hce. subst rf.
-      eapply islf_sim; [exact Hfrag | | exact Eb | apply krel_halt | exact Hrun | exact Hne]. reflexivity.
+      match type of Eb with wc _ _ _ _ ?cont _ = _ => assert (Hcl : tfv_term cont [] = []) end.
+      { cbn [tfv_term tfv_stmt bset_insert bset_union fold_left flip_chi bset_remove].
+        rewrite cbinding_compare_refl. reflexivity. }
+      eapply islf_sim; [exact Hfrag | | exact Hcl | exact Eb | apply krel_halt | exact Hrun | exact Hne]. reflexivity.
     + rewrite He. exists 0%nat. exact Hrun.
   - exists 0%nat. exact Hrun.
 Qed.
